@@ -102,6 +102,10 @@ def run_case(case, v, exact=True):
                 try:
                     if op[0] == 'tempo':
                         clock.tempo = op[1]
+                    elif op[0] == 'etempo':
+                        # (non-real-time: elapsed time is the logical time,
+                        # the same change as the setter)
+                        clock.etempo(op[1])
                     elif op[0] == 'meter':
                         clock.beats_per_bar = op[1]
                     elif op[0] == 'beats':
@@ -175,7 +179,7 @@ def run_case(case, v, exact=True):
         op = step.get('op')
         if op and 'op_after' in o:
             (b0, s0), (b1, s1) = o['op_before'], o['op_after']
-            if op[0] == 'tempo':
+            if op[0] in ('tempo', 'etempo'):
                 tempo_changes += 1
                 if not (near(b0, b1) and near(s0, s1)):
                     v.fail('tempo_change_discontinuous',
@@ -244,12 +248,13 @@ def run_case(case, v, exact=True):
     seen = False
     for i in range(len(case['steps']) - 1, -1, -1):
         later_rebase[i] = seen
-        if (case['steps'][i].get('op') or [None])[0] in ('tempo', 'beats'):
+        if (case['steps'][i].get('op') or [None])[0] == 'beats':
             seen = True
     for rec in probes:
         if later_rebase[rec['step_index']]:
-            # a later tempo/beats change while the probe sleeps: how pending
-            # wake-ups follow a re-based clock is C08/C10's subject
+            # a later beats change while the probe sleeps moves the beat
+            # the probe was scheduled for (C10's subject); a tempo change
+            # does not: the probe still wakes at its beat
             continue
         if 'woke_beats' not in rec:
             v.fail('play_quant_never_woke', f'{rec}')
@@ -307,7 +312,8 @@ def cases(draw, exact=True):
         op = None
         k = draw(st.integers(0, 5))
         if k <= 1:
-            op = ['tempo', draw(tempo)]
+            op = [draw(st.sampled_from(['tempo', 'tempo', 'etempo'])),
+                  draw(tempo)]
         elif k == 2:
             op = ['meter', draw(st.sampled_from([1, 2, 3, 4, 5, 7, 1.5, 6]))]
         step = {'wait': wait, 'op': op,
